@@ -52,6 +52,7 @@ pub fn run_op(lhs: &str) -> String {
             "serde" => ops3::op_serde(args),
             "fragdec" => ops4::op_fragdec(args),
             "fragdecr" => ops4::op_fragdecr(args),
+            "decrt" => ops4::op_decrt(args),
             "fragob" => ops4::op_fragob(args),
             "fragenc" => ops4::op_fragenc(args),
             "faults" => ops4::op_faults(args),
